@@ -37,7 +37,7 @@ def write():
             'guard': 'xray_verif',
             'enable': 'RUSTFLAGS="--cfg xray_verif" cargo build --offline (the harness crate /verif/harness depends on /repo by path)',
             'baseline_off_cmd': 'cd /repo && cargo test --workspace --no-fail-fast --offline',
-            'source_commits': ['2b15049', '3600292'],
+            'source_commits': ['2b15049', '3600292', '46c3229'],
             'add_only': True,
         },
         'engines': [{'name': 'coq-xr', 'path': '/verif/coq', 'serves_properties': sorted(CLAIMED),
